@@ -7,6 +7,8 @@ def callers_of(crate, suffix):
     """[(caller path, call node, body)] for every call whose callee ends with `suffix` anywhere in the crate."""
     out = []
     for p, b in crate.hir.items():
+        if b.get("inlined_everywhere"):
+            continue            # a helper added since the review, already part of each of its callers
         for c in hq.calls_to(b["body"], suffix):
             out.append((p, c, b))
     return out
@@ -37,15 +39,20 @@ def field_writers(ctx, qfield, crate_name="ruzstd"):
     from .. import mir as M
     out = {}
     crate = ctx.crate(crate_name)
+
+    def add(path, item):
+        # writes in a helper added since the review count for the reviewed functions that call it
+        for o in crate.owners(path):
+            out.setdefault(o, []).append(item)
     for path in crate.mir:
         body = ctx.mir(path, crate_name)
         for bi, si, place, kind, sp in M.writes(body):
             fs = M.place_fields(place)
             if fs and fs[-1] == qfield:
-                out.setdefault(path, []).append((kind, body.loc(sp)))
+                add(path, (kind, body.loc(sp)))
         for b in body.blocks:
             for s in b["stmts"]:
                 if s["k"] == "Assign" and s["rv"]["k"] == "Aggregate" and s["rv"].get("def") and \
                         qfield.startswith(s["rv"]["def"] + ".") and qfield.split(".")[-1] in (s["rv"].get("fields") or ()):
-                    out.setdefault(path, []).append(("construct", body.loc(s["sp"])))
+                    add(path, ("construct", body.loc(s["sp"])))
     return out
